@@ -6,6 +6,7 @@ MC = {"quick": [("mc-faults", "MCLdapConn", "MCConn_c04_quick.cfg", 900, 8)],
                    ("mc-liveness", "MCLdapConn", "MCConn_c04_live.cfg", 3400, 12)]}
 PROFILES = {"quick": [("faults", 300), ("mixed", 100)],
             "thorough": [("faults", 5000), ("mixed", 2000)]}
+SCRIPTS = {"quick": ("GenConn_faults5.cfg", 6), "thorough": ("GenConn_faults5.cfg", 1)}
 RULE = ("model: server close / reset / undecodable frame / write failure / unbind / last handle dropped allowed at every point; "
         "FailFast, NotStuck (no state with a dead connection, a waiting caller and no enabled internal step), UnbindCloses, "
         "DeliveredSurvives; thorough adds Termination under weak fairness; implementation: a fault of each kind injected at a random "
@@ -14,8 +15,7 @@ RULE = ("model: server close / reset / undecodable frame / write failure / unbin
 
 
 def run(tier):
-    return L.run_lane("C04", tier, MC[tier], PROFILES[tier], RULE,
-                      [("data-after-exit", L.corrupt_failfast, "core:Ret")])
+    return L.run_lane("C04", tier, MC[tier], PROFILES[tier], RULE, scripts=SCRIPTS[tier], selftests=[("data-after-exit", L.corrupt_failfast, "core:Ret")])
 
 
 def replay(path):
